@@ -261,6 +261,47 @@ impl<'tcx> Ctx<'tcx> {
                 }
             }
         }
+        // [E; N] with E a field-less enum (e.g. `const ALL: [Kind; 4]`): the variant names, decoded from the evaluated allocation
+        if let ty::Array(elem, _) = cty.kind() {
+            if let ty::Adt(adt, _) = elem.kind() {
+                if adt.is_enum() && adt.variants().iter().all(|v| v.fields.is_empty()) {
+                    let cv_opt = match c.const_ {
+                        mir::Const::Val(cv, _) => Some(cv),
+                        mir::Const::Unevaluated(uv, _) if uv.promoted.is_none() => c.const_.eval(tcx, typing_env, c.span).ok(),
+                        _ => None,
+                    };
+                    if let (Some(ConstValue::Indirect { alloc_id, offset }), Ok(layout)) =
+                        (cv_opt, tcx.layout_of(typing_env.as_query_input(*elem)))
+                    {
+                        let esz = layout.size.bytes() as usize;
+                        if let rustc_middle::mir::interpret::GlobalAlloc::Memory(mem) = tcx.global_alloc(alloc_id) {
+                            let alloc = mem.inner();
+                            let start = offset.bytes() as usize;
+                            let total = alloc.len();
+                            let bytes = alloc.inspect_with_uninit_and_ptr_outside_interpreter(start..total);
+                            let mut names: Vec<String> = Vec::new();
+                            let mut ok = esz > 0 && esz <= 16;
+                            if ok {
+                                for chunk in bytes.chunks(esz) {
+                                    if chunk.len() < esz { break; }
+                                    let mut v: u128 = 0;
+                                    for (i, b) in chunk.iter().enumerate() { v |= (*b as u128) << (8 * i); }
+                                    let mut found = None;
+                                    for (vi, d) in adt.discriminants(tcx) {
+                                        if d.val == v { found = Some(adt.variant(vi).name.to_string()); }
+                                    }
+                                    match found { Some(n) => names.push(esc(&n)), None => { ok = false; break; } }
+                                }
+                            }
+                            if ok {
+                                items.push(("enum_array_of", esc(&self.ty(*elem))));
+                                items.push(("enum_array", arr(names)));
+                            }
+                        }
+                    }
+                }
+            }
+        }
         obj(items)
     }
 
